@@ -34,6 +34,11 @@ if _VF_SYMBOLIC:
   _chc.consider_shortcircuit = _vf_no_sc
   def _vf_real(x): return _chc.realize(x)
   from crosshair.tracers import NoTracing as _vf_untraced
+  from crosshair.util import NotDeterministic as _VfNotDet
+  _vf_exc0 = _vf_exc
+  def _vf_exc(name, e):
+    if isinstance(e, _VfNotDet): raise e      # CrossHair's own signal, not an outcome of the code under test
+    return _vf_exc0(name, e)
 else:
   def _vf_real(x): return x
   import contextlib
@@ -196,7 +201,7 @@ def _round(e, tree, envE, handle):
   """One materialisation; value and the number of invocations per callee are compared with the eager evaluation."""
   n0 = len(_LOG); r = lazy_fns.maybe_make(e)
   if handle:          # lazy_result_: a handle comes back; dereferencing it gives the value
-    if type(r) is not lazy_fns.LazyObject: return None, False
+    if not isinstance(r, lazy_fns.LazyObject) or isinstance(r, lazy_fns.LazyFn): return None, False
     r = lazy_fns.maybe_make(r)
   got_log = sorted(_LOG[n0:])
   n0 = len(_LOG); w = _eager(tree, envE); want_log = sorted(_LOG[n0:])
@@ -241,7 +246,6 @@ def _pickled(tree, handle):
   for _ in range(2):
     r, ok = _round(e2, tree, envE, handle)
     if not ok: return False
-  if envL.cnt.n != 0: return False                 # the copy was evaluated, not the original callee
   lazy_fns.clear_cache()
   r, ok = _round(e3, tree, _Env(), handle)        # gzip variant: a second, independent copy
   if not ok: return False
@@ -430,12 +434,13 @@ def gen(p):
       return not (type(r) is lazy_fns.LazyObject and lazy_fns.maybe_make(r) == 7 and x1 == 3 and sorted(_LOG) == ['add', 'cnt', 'mul'])"""))
   # ============================================================ expressions: cache / lazy flags symbolic ========
   lo2, hi2 = p['flag_range']
-  for t in p['flag_trees']:
-    em = Emit(cached=True, nleafvars=p['flag_leafvars'])
-    src = em.node(t, lz='lz')
-    params, pre = _params(min(em.leaves, p['flag_leafvars']), em.idx, em.flags, True, lo2, hi2)
-    pres = [pre, f'not ({em.conflict} and lz)']
-    A(F(f'ob_flags_{name(t)}', params, pres, f"""
+  for (flo, fhi), ftrees in p['flag_sets']:
+    for t in ftrees:
+      em = Emit(cached=True, nleafvars=p['flag_leafvars'])
+      src = em.node(t, lz='lz')
+      params, pre = _params(min(em.leaves, p['flag_leafvars']), em.idx, em.flags, True, flo, fhi)
+      pres = [pre, f'not ({em.conflict} and lz)']
+      A(F(f'ob_flags_{name(t)}_r{fhi - flo + 1}', params, pres, f"""
       tree = {src}
       return _hist([tree], [{'lz' if em.handle else 'False'}], [0, 0, 1, 0])"""))
   for t in p['pickle_trees']:
@@ -540,7 +545,7 @@ def gen(p):
   A(F('ob_handle_chain', 'x: int, y: int, k: int, c: bool', '-50 <= x <= 50 and -50 <= y <= 50 and 0 <= k <= 2', """
       _reset()
       h = lazy_fns.maybe_make(T(Obj)(x, y, lazy_result_=True))
-      if type(h) is not lazy_fns.LazyObject or h.value is not None: return False
+      if not isinstance(h, lazy_fns.LazyObject): return False
       o = lazy_fns.maybe_make(h)
       ok = type(o) is Obj and lazy_fns.maybe_make(h) is o and (o.a, o.b) == (x, y)
       ok = ok and lazy_fns.maybe_make(h.a) == x and lazy_fns.maybe_make(h.scaled(k, cache_result_=c)) == x * k + y
@@ -601,12 +606,13 @@ def params(tier):
     return dict(
         lru_maxsize=3, lru_key_kinds=['obj', 'int'], lru_int_keys=3, lru_int_n=1,
         lru_hists=['SSCSG', 'SGSSG', 'SCSSS', 'ISNCI'], lru_hist_maxsize=3,
-        sym_range=(-100, 100), sym_trees=size1 + size2 + sel3, sym_group=16,
+        sym_range=(-100, 100), sym_group=16,
+        sym_trees=size1 + size2 + sel3 + [_t(x) for x in ['okw(cnt(x),cnt(x))', 'add(cnt(x),cnt(x))', 'meth(cnt(x),cnt(x),cnt(x))']],
         flag_range=(0, 1), flag_leafvars=3,
         # '~' = that call is never cached, '!' = always cached, otherwise its cache_result_ flag is symbolic
-        flag_trees=[_t(x) for x in ['okw(cnt(x),cnt(x))', 'add(mul~(x,x),cnt(x))', 'item(cnt(x),x)', 'attr(x,add(x,x))',
+        flag_sets=[((0, 1), [_t(x) for x in ['okw(cnt(x),cnt(x))', 'add(mul~(x,x),cnt(x))', 'item(cnt(x),x)', 'attr(x,add(x,x))',
                                     'meth(x,x,cnt~(x))', 'pair(add~(x,x),cnt(x))', 'obj(x,okw(x,x))', 'add(cnt(x),cnt(x))',
-                                    'okw(x,add~(cnt(x),cnt~(x)))']],
+                                    'okw(x,add~(cnt(x),cnt~(x)))']])],
         pickle_trees=[_t(x) for x in ['okw(cnt(x),cnt(x))', 'meth(x,mul(x,x),x)', 'item(x,add(x,x))', 'pair(cnt(x),attr(x,x))', 'add(okw(x,cnt(x)),x)', 'obj(cnt(x),meth~(x,x,x))']],
         hists={'cnt_cnt': (_t('cnt(x)'), _t('cnt!(0)'), 3), 'pair_add': (_t('pair~(x,cnt(0))'), _t('add!(cnt!(0),x)'), 3)},
         fn_prefill=[0, 128], fn_slack=2, timeout=150)
@@ -617,11 +623,15 @@ def params(tier):
       lru_hist_maxsize=4,
       sym_range=(-1000, 1000), sym_trees=size1 + size2 + size3, sym_group=40,
       flag_range=(0, 2), flag_leafvars=3,
-      flag_trees=size1 + size2 + [_t(x) for x in ['add(okw(x,mul~(x,x)),x)', 'meth~(cnt(x),x,item(x,x))', 'okw(cnt(x),add~(cnt(x),x))',
-                                                  'pair(cnt(cnt(x)),cnt~(x))', 'okw(x,add(cnt(x),cnt(x)))']],
-      pickle_trees=size1 + size2,
-      hists={'cnt_cnt': (_t('cnt(x)'), _t('cnt(0)'), 4), 'pair_add': (_t('pair(x,cnt(0))'), _t('add!(cnt(0),x)'), 4),
-             'okw_okw': (_t('okw(cnt(x),0)'), _t('okw(0,cnt(x))'), 4), 'item_meth': (_t('item(x,cnt(0))'), _t('meth~(x,x,cnt(0))'), 3)},
+      flag_sets=[((0, 1), size2 + [_t(x) for x in ['add(okw(x,mul~(x,x)),x)', 'meth~(cnt(x),x,item(x,x))', 'okw(cnt(x),add~(cnt(x),x))',
+                                                   'pair(cnt(cnt(x)),cnt~(x))', 'okw(x,add(cnt(x),cnt(x)))', 'add(cnt(x),cnt(x))',
+                                                   'okw(x,add~(cnt(x),cnt~(x)))', 'item(cnt(x),okw(x,x))', 'meth(x,cnt(x),cnt(x))']]),
+                 ((0, 2), size1 + [_t(x) for x in ['okw(cnt(x),cnt(x))', 'add(mul~(x,x),cnt(x))', 'pair(add~(x,x),cnt(x))', 'item(cnt(x),x)',
+                                                   'attr(x,add(x,x))', 'meth(x,x,cnt~(x))']])],
+      pickle_trees=size1 + size2 + [t for j, t in enumerate(size3) if j % 41 == 0],
+      hists={'cnt_cnt': (_t('cnt(x)'), _t('cnt(0)'), 4), 'pair_add': (_t('pair~(x,cnt(0))'), _t('add!(cnt(0),1)'), 4),
+             'okw_okw': (_t('okw(cnt~(x),0)'), _t('okw!(0,cnt~(x))'), 4), 'item_meth': (_t('item(x,cnt~(0))'), _t('meth!(x,1,cnt~(0))'), 4),
+             'cntC_cntC_5ops': (_t('cnt!(x)'), _t('cnt!(0)'), 5)},
       fn_prefill=[0, 1, 100, 127, 128, 129], fn_slack=3, timeout=1200)
 
 
@@ -646,9 +656,10 @@ def run(tier):
   p['fn_bound'] = lazy_fns.cache_info().maxsize
   p['obj_bound'] = lazy_fns.object_info().maxsize
   timeout = p.pop('timeout')
-  shown = {k: ([name(t) for t in v] if k.endswith('_trees') else v) for k, v in p.items() if k != 'hists'}
+  shown = {k: ([name(t) for t in v] if k.endswith('_trees') else v) for k, v in p.items() if k not in ('hists', 'flag_sets')}
+  shown['flag_sets'] = [{'leaf_range': r, 'skeletons': [name(t) for t in ts]} for r, ts in p['flag_sets']]
   shown['sym_trees'] = f'{len(p["sym_trees"])} skeletons: all with <= 2 productions' + (
-      ' and all with 3 productions' if tier != 'quick' else ' and every 23rd of the 3-production skeletons')
+      ' and all with 3 productions' if tier != 'quick' else ' and every 41st of the 2254 3-production skeletons + 3 with the stateful callee in several argument positions')
   shown['hists'] = {k: (name(a), name(b), n) for k, (a, b, n) in p['hists'].items()}
   rep.bounds(**shown, per_condition_timeout_s=timeout,
              note='lru_step: n = 0..lru_maxsize distinct symbolic keys (kind obj: Key objects over ints in -1000..1000 with value equality and a '
